@@ -13,7 +13,7 @@ RULE = ("one process per run under ThreadSanitizer: the real FsDropInService wat
         "back to back on an engine of scripted plugins, and a thread performing a seeded sequence of 80 (quick) / 150 (thorough) file operations in "
         "the drop-in directory: create, rewrite in one shot and in chunks (partial JSON on disk in between), rename in / out / within, delete, "
         "dot-files, rewrites that bring back byte-identical earlier content (also right after an unusable version), syntactically invalid JSON, JSON that parses but is refused (unknown target ruleset, part the base did not open, bad "
-        "numeric field), removing and re-creating the directory. Every valid content carries a unique id as a plugin argument, so a tick's "
+        "numeric field), removing and re-creating the directory; two of the eight file names are 242 and 255 bytes long. Every valid content carries a unique id as a plugin argument, so a tick's "
         "call log shows exactly which contents are active. Oracles: zero ThreadSanitizer reports, process alive, no abort; after the file "
         "thread stopped the driver waits until the watcher thread is blocked in epoll_wait with no pending inotify bytes while >=2 more "
         "ticks completed (logical quiescence, wall clock only as an inconclusive cap), runs 3 more ticks and requires active set == valid "
@@ -29,7 +29,8 @@ BASE = {"rulesets": [
      "detectors": [["g", W.det("base1.d")]], "actions": [W.act("base1.a")]},
     {"name": "r2", "drop-in": {"detectors": False, "actions": True}, "post_action_delay": "0",
      "detectors": [["g", W.det("base2.d")]], "actions": [W.act("base2.a")]}]}
-FILES = ["a.json", "b.json", "c.json", "d.json", "e.conf", ".hidden.json"]
+# (the last two: names at and near NAME_MAX - an inotify event carries the name, so its size grows with it)
+FILES = ["a.json", "b.json", "c.json", "d.json", "e.conf", ".hidden.json", "L" + "o" * 249 + ".json", "m" + "e" * 236 + ".json"]
 
 
 def content(kind, cid):
